@@ -32,6 +32,9 @@ def long_docs(rnd, n):
         lines = []
         while sum(len(x) + 1 for x in lines) < rnd.choice([105, 130, 170]):
             lines.append(line if rnd.random() < 0.7 else rnd.choice(["99 1.", "3 44 5 66."]))
+        if _ % 2 == 1:
+            # every line distinct (no repeated lines): the line number is appended
+            lines = [f"{ln[:-1]} {k + 10}." for k, ln in enumerate(lines)]
         plain = "\n".join(lines)
         src_lines = []
         for ln in lines:
@@ -139,9 +142,13 @@ def main(pid):
                 case = {k: o.get(k) for k in ("src", "hasSrc", "mode", "anns", "dmp", "output", "raised")}
                 case["plain"] = "".join(map(chr, o.get("plain", [])))
                 case["target"] = "".join(map(chr, o.get("target", [])))
+                lines = case["plain"].split("\n")
                 vd.violation(cl, {"kind": kind, **case},
                              {"clause": cl, "mode": o.get("mode"), "hasSrc": o.get("hasSrc"),
-                              "tokens": "-".join(t["c"] for t in o.get("src", []))})
+                              "tokens": "-".join(t["c"] for t in o.get("src", [])),
+                              # mechanism signature for the difflib finding: engine + repeated plain lines
+                              "engine": "dmp" if o.get("dmp") else "difflib",
+                              "repeated_lines": len(set(lines)) < len(lines)})
         for ix, rest in drifts:
             o = obs[ix]
             vd.spec_drift("Annotate", f"{kind} src={[t['c'] for t in o.get('src', [])]} mode={o.get('mode')} anns={o.get('anns')} out={o.get('output')!r}")
